@@ -1,3 +1,4 @@
+import Proofs.MemSound
 import Model.Int32
 import Model.Generated
 import Proofs.Memory
